@@ -232,12 +232,12 @@ def scan_addr_asserts(ctx, genc, target, disagree):
         e = " ".join(m.group(1).split())
         if ADDR_WORDS.search(e):
             real.append(e)
-    answers = genc.ask(["@any addrasserts", "@any,hg addrasserts"])
+    answers = genc.ask(["@any,nohg addrasserts", "@any addrasserts"])
     models = [[x.strip() for x in a[3:].split(";;")] if a.startswith("ok ") else [a] for a in answers]
     ctx.traces += 1
     ctx.count("genc:assert-text:" + target.name)
-    if real not in models:
-        disagree("genc-assert-text", {"target": target.name}, " ;; ".join(models[0]), " ;; ".join(real))
+    if real != models[1]:    # models[1] = the text of HEAD (23731cd); models[0] = unguarded head assertion before it
+        disagree("genc-assert-text", {"target": target.name}, " ;; ".join(models[1]), " ;; ".join(real))
     return {"assertions": len(real), "head_guarded": real == models[1]}
 
 
@@ -272,7 +272,7 @@ def stack_probe(ctx, genc, target, sess, disagree, head_guarded, limit=40):
     (d / "probe.c").write_text("\n".join(src) + "\n")
     e = "little" if target.endianness == "little" else "any"
     # the model under the placement "every other object directly above the buffer", with the head assertion as emitted
-    mopt = f"@{e},asserts,place=above" + (",hg" if head_guarded else "")
+    mopt = f"@{e},asserts,place=above" + (",hg" if head_guarded else ",nohg")
     model = genc.ask([f"{mopt} de {gt.tstr} {'55' if size else '-'}" for fn, gt, tag, size in calls])
     plain = genc.ask([f"@{e},asserts de {gt.tstr} {'55' if size else '-'}" for fn, gt, tag, size in calls])
     out = {}
@@ -329,6 +329,87 @@ def stack_probe(ctx, genc, target, sess, disagree, head_guarded, limit=40):
     return out
 
 
+# ------------------------------------------------------------------------------------------------------------
+# round 2: --enable-override-variable-array-capacity (GenCX `ovr=`) against C04's override builds
+# ------------------------------------------------------------------------------------------------------------
+
+def override_tie(ctx, genc, disagree):
+    """The compiled override configurations of harness/c04.py (corpus/C04/override/ov, its own shim c04_override.c: objects
+    with exactly the reduced member array, exact-size heap buffers, ASan/UBSan) against `genc @any,ovr=<c>[,nocheck]` on
+    the same messages: every count 0 .. capacity+1 decoded from full / short / empty inputs, serialized into a buffer
+    that holds the DSDL maximum (the domain of the theorems: the header compiles the up-front check out once the
+    capacity macro is user-defined)."""
+    import types as _types
+    from . import c04
+    if not c04.CODES["c"]:
+        for lang in ("c", "cpp"):
+            c04.CODES[lang] = {2: "err:invalid-argument", 3: "err:buffer-too-small", 10: "err:bad-array-length",
+                               11: "err:bad-union-tag", 12: "err:bad-delimiter-header"}
+    sub = _types.SimpleNamespace(scratch=ctx.scratch / "genc_ovr", quick=True)
+    sub.scratch.mkdir(parents=True, exist_ok=True)
+    state = c04.override_prepare(sub)
+    state["cpp_jobs"] = []
+    c04.override_build(state)
+    if state["gen_log"] is not None or state["res"] is None:
+        ctx.broken.append({"kind": "genc-override-generate", "log_tail": state["gen_log"]})
+        return {}
+    small = [t for t, d in c04.OV_TYPES.items() if d["cap"] <= 20]
+    out = {}
+    t_ovr = time.time()
+    for (name, red, exe, cmd), (ok, log) in zip(state["jobs"], state["res"]):
+        if not ok:
+            ctx.broken.append({"kind": "genc-override-build", "config": name, "log_tail": log[-1500:]})
+            continue
+        lines, mlines = [], []
+        for t in small:
+            d = c04.OV_TYPES[t]
+            eb, cap, lp, aw, bits = d["eb"], d["cap"], d["lp"], d.get("aw", 8), bool(d.get("bits"))
+            usr = red.get(t)
+            slots = cap if (usr is None or bits) else usr
+            opt = "@any" + (f",ovr={usr},nocheck" if usr is not None else "")
+            elem = "(b)" if bits else f"(u {eb} s)"
+            ty = f"(s (u {aw} s) (l {elem} {cap}) (u 8 s))"
+            maxb = (aw + lp + cap * eb + 8 + 7) // 8
+            for count in range(0, cap + 2):
+                for extra in sorted({0, 1, (count * eb + 7) // 8 + 1, maxb + 2}):
+                    data = c04.ov_wire(t, count, extra)
+                    lines.append(f"de {t} {data.hex()}")
+                    mlines.append(f"{opt} de {ty} {data.hex()}")
+                # the object of the shim: a = 0x0A, b = 0x0B, element i = (uint8_t)(0x11 * (i + 1)) where the array has a slot
+                if bits:
+                    packed = [(0x11 * (i + 1)) & 0xFF for i in range((cap + 7) // 8)]
+                    vals = [str((packed[i // 8] >> (i % 8)) & 1) if i // 8 < len(packed) else "0" for i in range(count)]
+                else:
+                    vals = [str((0x11 * (i + 1)) & 0xFF) if i < slots else "0" for i in range(count)]
+                for bcap in (maxb, maxb + 3):
+                    lines.append(f"ser {t} {count} {bcap}")
+                    mlines.append(f"{opt} serbuf {ty} {{10 [{' '.join(vals)}] 11}} {bcap}")
+            lines.append(f"de {t} -")
+            mlines.append(f"{opt} de {ty} -")
+        answers, _exit = c04.run_lines(exe, lines, max_crashes=200)
+        model = genc.ask(mlines, 600)
+        n = 0
+        for l, ml, a, m in zip(lines, mlines, answers, model):
+            ctx.traces += 1
+            n += 1
+            ctx.count("genc:override:" + name)
+            if l.startswith("de "):
+                if m.startswith("ok "):
+                    body = m[3:].rsplit(" ", 1)
+                    inner = body[0]
+                    k = inner[inner.index("[") + 1: inner.index("]")].split()
+                    want = f"ok {len(k)} {body[1]}"
+                else:
+                    want = m
+            else:
+                want = m if m != "ok " else "ok -"
+            if a != want:
+                disagree("genc-vs-c-override", {"config": name, "request": l, "model_request": ml[:300]}, want[:400], a[:400])
+        out[name] = n
+    out["seconds_after_build"] = round(time.time() - t_ovr, 2)
+    return out
+
+
 def _opt_of(target):
     return ("@little" if target.endianness == "little" else "@any") + (",asserts" if target.asserts else "")
 
@@ -366,7 +447,7 @@ def run_genc(ctx, drivers, sess=None):
     # nested call got the end pointer of the buffer and copies zero bits (hypothesis NoAliasPastEnd of the theorem).
     ends = sorted({("little" if t.endianness == "little" else "any") for t in ctargets if t.asserts}) or ["any"]
     place_variants = [f"@{e},asserts,place={pl}" for e in ends for pl in ("below", "far", "above,hg")]
-    alias_variants = [f"@{e},asserts,place=above" for e in ends]
+    alias_variants = [f"@{e},asserts,place=above,nohg" for e in ends]
     variants = variants + place_variants  # (asked over a bounded subset of the requests, see below)
     import concurrent.futures
     with concurrent.futures.ThreadPoolExecutor(max_workers=len(variants) + len(ctargets)) as ex:
@@ -457,6 +538,11 @@ def run_genc(ctx, drivers, sess=None):
             sc = scan_addr_asserts(ctx, genc, t, disagree)
             summary.setdefault("assert_text", {})[t.name] = sc
             summary.setdefault("stack_probe", {})[t.name] = stack_probe(ctx, genc, t, sess, disagree, bool(sc and sc.get("head_guarded")))
+    if ctx.prop in ("C01", "C04") or ctx.tier != "quick" or os.environ.get("GENC_OVERRIDE_TIE") == "1":
+        try:
+            summary["override"] = override_tie(ctx, genc, disagree)
+        except Exception as ex:  # noqa: BLE001
+            ctx.broken.append({"kind": "genc-override-tie", "error": f"{type(ex).__name__}: {str(ex)[:500]}"})
     summary["differences"] = n_dis[0]
     summary["seconds"] = round(time.time() - t0, 2)
     ctx.extra["genc_tie"] = summary
